@@ -43,7 +43,10 @@ class Stuck(Exception):
 class FakeTimer:
     """Stands in for `threading.Timer`: never fires by itself; the harness fires it."""
 
+    created: list = []  # every fake timer still of interest, oldest first (a rig drops its own in `close`)
+
     def __init__(self, interval, function, args=None, kwargs=None):
+        FakeTimer.created.append(self)
         self.interval, self.function = interval, function
         self.args, self.kwargs = args or (), kwargs or {}
         self.started = self.cancelled = self.fired = False
@@ -249,8 +252,9 @@ class Rig:
             self.h.register_stream_function(s, f, self._user_cb)
         self.helpers: list[threading.Thread] = []
 
-    # ---- user callback: counts (through the `_call` observer) and does what `user_outcome[(s, f)]` says (default: return None)
+    # ---- user callback: logs its own invocation and does what `user_outcome[(s, f)]` says (default: return None)
     def _user_cb(self, handler, message):
+        self.log.append(("ucb", message.header.stream, message.header.function))
         what = self.user_outcome.get((message.header.stream, message.header.function))
         if what is None:
             return None
@@ -343,6 +347,12 @@ class Rig:
                 raise Stuck("timer callback")
         return False
 
+    def timers(self, kind):
+        """the fake timers of this handler's communication state machine that are still pending, oldest first;
+        kind: `_on_wait_cra_timeout` (T3) or `_on_wait_comm_delay_timeout` (establish-communications delay)"""
+        m = self.h._communication_state
+        return [t for t in FakeTimer.created if t.armed and getattr(t.function, "__self__", None) is m and t.function.__name__ == kind]
+
     # ---- observation
     def frames(self, entries):
         """decode ("raw", bytes) entries of a log slice into HSMS blocks, other entries unchanged (order kept)"""
@@ -384,6 +394,8 @@ class Rig:
                 th._dispatcher_thread_trigger.set()
                 t.join(0.002)
         DISPATCHERS[:] = [(d, t) for d, t in DISPATCHERS if d is not th]
+        mine_t = (self.h._communication_state, self.p)
+        FakeTimer.created[:] = [t for t in FakeTimer.created if getattr(t.function, "__self__", None) not in mine_t]
         for k in (id(self.h), id(self.h._callback_handler), id(self.h._communication_state)):
             RIGS.pop(k, None)
         self.c.rig = None
